@@ -117,6 +117,14 @@ func DialPair(cfg PairCfg) (*Pair, error) {
 		return nil, fmt.Errorf("Listen(B): %s", e.String())
 	}
 	p.Listener = lep
+	// the listen loop reads its cookie nonces from crypto/rand when it starts: wait until it is parked,
+	// so that the bytes queued below really become A's initial sequence number
+	for dl := time.Now().Add(wait); !tcp.VerifSegWakerParked(lep); {
+		if time.Now().After(dl) {
+			return nil, fmt.Errorf("the listener did not start")
+		}
+		time.Sleep(50 * time.Microsecond)
+	}
 
 	// A connects
 	awq := &waiter.Queue{}
